@@ -19,7 +19,8 @@ from ..framework import main
 
 
 class RecSigner(object):
-    def __init__(self, idx, log, keep_bytearray=False, same_pub=False):
+    def __init__(self, idx, log, keep_bytearray=False, same_pub=False, no_pub=False):
+        self.no_pub = no_pub          # a signer built from the private key alone: asking it for the public key fails
         self.idx, self.log = idx, log
         self.pub = bytearray(b'PUB|%d' % idx) if keep_bytearray else None      # a signer that hands out the bytearray it keeps
         if same_pub:
@@ -31,6 +32,8 @@ class RecSigner(object):
 
     def GetPublicKey(self):
         self.log.append(('pub', self.idx))
+        if self.no_pub:
+            raise TypeError('this signer has no public key')
         if self.pub is not None:
             return self.pub
         return b'PUB|%d' % self.idx
@@ -57,7 +60,7 @@ def run_script(mode, sc, sess=None, seed=0, stray_frames=None, keys=None):
                                  tokens=[bytes(rng.randrange(256) for _ in range(tl)) for _ in range(8)])
     log = []
     if keys is None:
-        keys = [RecSigner(i + 1, log, keep_bytearray=bool(sc.get('keep_pub')), same_pub=bool(sc.get('same_pub'))) for i in range(sc['nkeys'])]
+        keys = [RecSigner(i + 1, log, keep_bytearray=bool(sc.get('keep_pub')), same_pub=bool(sc.get('same_pub')), no_pub=bool(sc.get('no_pub'))) for i in range(sc['nkeys'])]
     at = sc.get('auth_timeout', 7.0)
     cbs = []
 
@@ -243,6 +246,23 @@ def body(ctx):
                 traces.append(tr)
                 meta.append((mode, [sc]))
     for mode in ('sync', 'async'):
+        # signers that have no public key: as long as one of their signatures is accepted the public key is never needed
+        for nk in (1, 2, 3):
+            for acc in range(1, nk + 1):
+                sc = dict(nkeys=nk, need_auth=True, accept_at=acc, pub_accept=True, bad_at=0, strays=[1, 0, 1], md=4096, cb=True, no_pub=True)
+                tr, o, sess = run_script(mode, sc, seed=ctx.seed + 400 + nk * 10 + acc)
+                sess.close_loop()
+                traces.append(tr)
+                meta.append((mode, [sc]))
+        # stray packets in front of the CNXN that follows the public key, with every kind of auth timeout
+        for at in (None, 0, 0.5, 7.0):
+            for strays in ([0, 0, 0, 2], [1, 1, 1, 1], [0, 0, 0, 4]):
+                sc = dict(nkeys=2, need_auth=True, accept_at=0, pub_accept=True, bad_at=0, strays=strays, md=4096, cb=True, auth_timeout=at)
+                tr, o, sess = run_script(mode, sc, seed=ctx.seed + 500)
+                sess.close_loop()
+                traces.append(tr)
+                meta.append((mode, [sc]))
+    for mode in ('sync', 'async'):
         for at, dtt in ((None, None), (0, None), (0.5, None), (7.0, None), (None, 4.0), (7.0, 4.0), (0.5, 30.0)):
             sc = dict(nkeys=2, need_auth=True, accept_at=0, pub_accept=True, bad_at=0, strays=[], md=4096, cb=True, keep_pub=True, auth_timeout=at, default_tt=dtt)
             tr, o, sess = run_script(mode, sc, seed=ctx.seed + 77)
@@ -252,7 +272,7 @@ def body(ctx):
                 tr = tr + tr2
             sess.close_loop()
             traces.append(tr)
-            meta.append((mode, [dict(sc, note='three connects with the same signer objects')]))
+            meta.append((mode, [dict(sc, note='three connects with the same signer objects'), dict(sc, pub_accept=True), dict(sc, pub_accept=False)]))
     # random scripts
     for j in range(100 if ctx.quick else 3000):
         nk = rng.randint(0, 4)
@@ -266,6 +286,20 @@ def body(ctx):
         sess.close_loop()
         traces.append(tr)
         meta.append((mode, [sc]))
+    # SuccessWhenAccepted on the code: a healthy device that is going to accept (no authentication, an accepted signature, or the
+    # public key) and sends nothing out of line must end in connect() returning True - whatever the signers look like
+    for tr, (mode_, scs_) in zip(traces, meta):
+        k_ = 0
+        for e_ in tr:
+            if e_['ev'] in ('ret', 'exc'):
+                sc_ = scs_[min(k_, len(scs_) - 1)]
+                k_ += 1
+                will_accept = (not sc_['need_auth']) or (sc_['nkeys'] > 0 and not sc_.get('bad_at') and (0 < sc_['accept_at'] <= sc_['nkeys'] or sc_['pub_accept']))
+                if will_accept and sc_.get('token_len', 20) == 20 and not (e_['ev'] == 'ret' and e_.get('value')):
+                    ctx.violation('C05.SuccessWhenAccepted', dict(kind='handshake', mode=mode_, script=sc_, ended_with=e_))
+                    break
+        if len(ctx.violations) >= 3:
+            break
     ver, r2 = tlc.validate_traces('TraceAuth', traces)
     ctx.add_tlc(r2, 'TraceAuth over %d handshakes' % len(traces))
     okn = 0
